@@ -398,6 +398,10 @@ func (s *Server) handleDeleteHalt(w http.ResponseWriter, r *http.Request) {
 
 	// Database should have been created from original halt lock.
 	db := s.store.DB(name)
+	if db == nil {
+		Error(w, r, fmt.Errorf("database not found: %q", name), http.StatusNotFound)
+		return
+	}
 	if err != nil {
 		Error(w, r, fmt.Errorf("database not found: %q", name), http.StatusNotFound)
 		return
